@@ -324,7 +324,23 @@ impl<'de> serde::Deserializer<'de> for Value {
 	deserialize_number!(deserialize_u32);
 	deserialize_number!(deserialize_u64);
 	deserialize_number!(deserialize_u128);
-	deserialize_number!(deserialize_f32);
+
+	fn deserialize_f32<V>(self, visitor: V) -> Result<V::Value, Self::Error>
+	where
+		V: serde::de::Visitor<'de>,
+	{
+		match self {
+			// The decimal representation is parsed directly as a `f32`.
+			// Going through `f64` first (as `deserialize_any` does) rounds
+			// twice, which does not always give the nearest `f32`.
+			Value::Number(n) => match n.as_str().parse() {
+				Ok(f) => visitor.visit_f32(f),
+				Err(_) => Ok(n.deserialize_any(visitor)?),
+			},
+			_ => Err(self.invalid_type(&visitor)),
+		}
+	}
+
 	deserialize_number!(deserialize_f64);
 
 	#[inline]
